@@ -376,12 +376,25 @@ def _create_isotopomer_reactions(
         replacements = dict(zip(base_substrates, new_substrates, strict=True)) | dict(
             zip(base_products, new_products, strict=True)
         )
+        # A compound consumed more than once (2 A -> B, rate k * A * A) is mentioned
+        # once per unit in the rate arguments: the j-th mention is the j-th unit.
+        substrate_units: defaultdict[str, list[str]] = defaultdict(list)
+        for base, new in zip(base_substrates, new_substrates, strict=True):
+            substrate_units[base].append(new)
+        mentions: defaultdict[str, int] = defaultdict(int)
+        new_args = []
+        for k in args:
+            if len(units := substrate_units.get(k, [])) > 1:
+                new_args.append(units[mentions[k] % len(units)])
+                mentions[k] += 1
+            else:
+                new_args.append(replacements.get(k, k))
 
         model.add_reaction(
             name=new_rate_name,
             fn=function,
             stoichiometry=new_stoichiometry,
-            args=[replacements.get(k, k) for k in args],
+            args=new_args,
         )
 
 
